@@ -1167,7 +1167,9 @@ def gen_type(rng, depth=0, hashable=False, ndatas=0, typing_ok=True, allow_data=
         elif kind == "tuple":
             d["args"] = [gen_type(rng, depth + 1, False, ndatas, typing_ok, allow_data) for _ in range(rng.randint(1, 3))]
         elif kind in ("set", "frozenset"):
-            d["args"] = [gen_type(rng, depth + 1, True, ndatas, typing_ok, False)]
+            # scalar elements only: `==` between sets of tuples / frozensets is outside Py.eq / Conv.pyeq
+            d["args"] = [leaf(rng, True) if rng.random() < 0.7 else
+                         {"rule": {"base": {"t": (b := rng.choice(["int", "str", "Decimal"]))}, "cons": gen_cons(rng, b)}}]
         else:
             d["args"] = [gen_type(rng, depth + 1, False, ndatas, typing_ok, allow_data)]
         if style == "rule":
@@ -1635,6 +1637,24 @@ def _has_key(j, key) -> bool:
     return False
 
 
+def nested_mixin_member(case) -> bool:
+    """a member of a mixed-in enum (`class E(int, Enum)`) inside a container: `_attempt_from` unwraps the container and
+    the member then acts as an instance of its member type, which Conv.lean's `modelledInput` only excludes at top level"""
+    enums = case.get("enums") or []
+
+    def walk(j, inside):
+        if isinstance(j, dict):
+            if "e" in j:
+                k = j["e"][0]
+                return inside and k < len(enums) and enums[k].get("mt") is not None
+            if "q" in j:
+                return any(walk(x, True) for x in j["q"])
+            if "m" in j:
+                return any(walk(k, True) or walk(v, True) for k, v in j["m"])
+        return False
+    return walk(case["value"], False)
+
+
 def _has_set(j) -> bool:
     if isinstance(j, dict):
         if j.get("k") in ("set", "frozenset"):
@@ -1781,7 +1801,7 @@ class C01(Check):
     def compare(self, case, io, mo):
         if "decl" in io or "unsupported" in io or mo is None:
             return None
-        if conv_stale(case["value"]):
+        if conv_stale(case["value"]) or nested_mixin_member(case):
             return None
         if io.get("hang") or io.get("crash"):
             return "worker hang / crash"
